@@ -51,6 +51,80 @@ fn main() {
                 ntr += 1;
             }
         }
+        "sweep" => {
+            // C03: systematic hostile sweep. For every mechanism / fingerprint setting and every
+            // credential phase, a server message of every kind addressed to the outstanding
+            // request, with a hostile string injected at every offset of every attribute value
+            // (behind a valid MAC / FINGERPRINT), then the client keeps being used.
+            use rustun_verif_harness::clientdrv::{MsgSpec, Target, TimeSpec, HOSTILE_STR};
+            let max_off: u64 = arg(&args, "--max-off", "24").parse().unwrap();
+            let nstr: u64 = arg(&args, "--strings", "5").parse().unwrap();
+            let mk = |class: u8, code: u16, auth: &str, lt: Value, hostile: Value| Step::Recv {
+                at: TimeSpec::Dt(1000),
+                msg: MsgSpec { target: Target::Tx(0), class, method: None, code, auth: auth.to_string(),
+                               fp: "auto".to_string(), lt, raw: None, hostile },
+            };
+            let send = Step::Send { at: TimeSpec::Dt(10), method: 1, app: vec![], buf: 1024 };
+            let chall = json!({"realm":"ok","nonce":"fresh_cookie","pa":true,"ua":false,"algs":"md5_sha","dup":false});
+            let chall_plain = json!({"realm":"ok","nonce":"fresh","pa":false,"ua":false,"algs":"none","dup":false});
+            let mut idx = 0u64;
+            for mech in ["none", "st", "lt"] {
+                for fp in [false, true] {
+                    for reliable in [false, true] {
+                        let cfg = Cfg { reliable, timeout_us: 5_000_000, rto_us: 500_000, gran_us: 1000, rm: 16, rc: 7,
+                            mech: mech.to_string(), st_preset: "none".to_string(), fp, max_tx: 10,
+                            user: "alice".to_string(), password: "s3cret-pass".to_string() };
+                        // phases: (prefix steps, hostile message kinds)
+                        let mut phases: Vec<(Vec<Step>, Vec<(u8, u16, &str, Value)>)> = Vec::new();
+                        let good = if mech == "st" { "mi" } else { "none" };
+                        phases.push((vec![send.clone()], vec![
+                            (2, 0, good, json!({})), (3, 401, "none", chall.clone()), (3, 401, "none", chall_plain.clone()),
+                            (3, 438, "none", json!({"nonce":"fresh_cookie","pa":true,"ua":true})), (3, 420, good, json!({})),
+                            (1, 0, good, json!({}))]));
+                        if mech == "lt" {
+                            for (c, g) in [(chall.clone(), "sha"), (chall_plain.clone(), "mi")] {
+                                phases.push((vec![send.clone(), mk(3, 401, "none", c, Value::Null), send.clone()], vec![
+                                    (2, 0, g, json!({})), (3, 438, g, json!({"nonce":"fresh_cookie","pa":true,"ua":false})),
+                                    (3, 401, g, chall.clone()), (3, 500, g, json!({}))]));
+                            }
+                        }
+                        for (prefix, kinds) in &phases {
+                            for (class, code, auth, lt) in kinds {
+                                let mut variants: Vec<Value> = Vec::new();
+                                for i in 0..6u64 {
+                                    for off in 0..=max_off {
+                                        for sidx in 0..nstr.min(HOSTILE_STR.len() as u64) {
+                                            variants.push(json!({"kind":"inject","idx":i,"off":off,"s":sidx}));
+                                        }
+                                    }
+                                    for off in [0u64, 1, 2, 3, 4, 5, 7, 8, 9, 12, 13] {
+                                        variants.push(json!({"kind":"trunc_val","idx":i,"off":off,"s":0}));
+                                    }
+                                    variants.push(json!({"kind":"dup","idx":i,"off":0,"s":0}));
+                                    variants.push(json!({"kind":"rand_val","idx":i,"off":17,"s":i + 3}));
+                                }
+                                for h in variants {
+                                    let Ok(mut d) = Driver::new(cfg.clone(), idx) else { continue };
+                                    let mut steps_run: Vec<Step> = prefix.clone();
+                                    steps_run.push(mk(*class, *code, auth, lt.clone(), h));
+                                    // the client must remain usable afterwards
+                                    steps_run.push(Step::Timeout { at: TimeSpec::NextExpiry(0) });
+                                    steps_run.push(send.clone());
+                                    let mut done = Vec::new();
+                                    for st in &steps_run {
+                                        d.step(st);
+                                        done.push(steps::step_to_json(st));
+                                    }
+                                    write_trace(&mut tf, &mut sf, idx, &cfg, idx, &done, &d, &mut nlines);
+                                    idx += 1;
+                                    ntr += 1;
+                                }
+                            }
+                        }
+                    }
+                }
+            }
+        }
         "replay" => {
             let file = arg(&args, "--steps", "steps.ndjson");
             let f = BufReader::new(File::open(&file).expect("steps file"));
